@@ -11,6 +11,10 @@ and the exact primitives at the precision of the `float` and `long double` insta
   Lean for the `float` and `long double` instantiations too.  The container type is still `F64` (`fin s m e` is not
   normalised, so it holds any dyadic value).
 -/
+namespace GeoVerif
+deriving instance DecidableEq for F64
+end GeoVerif
+
 namespace GeoVerif.MathF
 open GeoVerif F64
 
